@@ -358,26 +358,22 @@ func ruleFilterEmit(c *Ctx, rule string) {
 						}
 					}
 					key := fmt.Sprintf("%s/reset-Count#%d", funcName(fn), ord)
-					tested, empty := false, false
+					// every path to the reset has compared Count with the threshold, or has found the tube empty
+					isCmp := func(i ssa.Instruction) bool {
+						bo, ok := i.(*ssa.BinOp)
+						return ok && ((isCount(bo.X) && isMin(bo.Y)) || (isMin(bo.X) && isCount(bo.Y)))
+					}
+					isEmptyEdge := func(bf branchFact) bool {
+						k, isK := constIntVal(bf.cond.Y)
+						return isK && k == 0 && isCount(bf.cond.X) && effectiveOp(bf, true) == token.EQL
+					}
+					empty := false
 					for _, bf := range branchesAt(b) {
-						if (isCount(bf.cond.X) && isMin(bf.cond.Y)) || (isMin(bf.cond.X) && isCount(bf.cond.Y)) {
-							tested = true
-						}
-						// Count == 0 known on this edge: nothing to emit
-						if k, isK := constIntVal(bf.cond.Y); isK && k == 0 && isCount(bf.cond.X) && effectiveOp(bf, true) == token.EQL {
+						if isEmptyEdge(bf) {
 							empty = true
 						}
 					}
-					// the test may also sit in a block that dominates through a join (both branches merge)
-					if !tested {
-						for d := b; d != nil; d = d.Idom() {
-							if ifi, ok := d.Instrs[len(d.Instrs)-1].(*ssa.If); ok && d != b {
-								if bo, ok := ifi.Cond.(*ssa.BinOp); ok && ((isCount(bo.X) && isMin(bo.Y)) || (isMin(bo.X) && isCount(bo.Y))) {
-									tested = true
-								}
-							}
-						}
-					}
+					tested := everyPathPasses(fn, x, isCmp, isEmptyEdge)
 					switch {
 					case empty:
 						c.triv(rule, key, x.Pos(), "the tube is known to be empty here")
